@@ -627,6 +627,7 @@ def build_variant(ctx, var, jobs):
         raise vlib.BuildError("library build failed for %s:\n%s" % (desc, out[-2500:]))
     return tree, vlib.get_harness(tree, "plain", "-no-pie" if cfg and "--enable-fat" in cfg else "")     # fat_entry.o uses absolute relocations
 
+INTERNAL_RE = re.compile(r"^(mpn_(kara|toom|mulmod|mullow|mulhigh|mulmid|dc_|sb_|inv_|redc|binvert|hgcd|matrix22|sqr_basecase|mul_basecase)|fft|sqrx_|mlx_|toom_|tdiv_q_|tdiv_qr_|dc_|sb_|hgcd_|as\\d?_|alias_)")
 # ops whose Lean answer is computed from the DEFAULT build's regenerated tables (they say nothing about another table)
 TABLE_BOUND_OPS = {"mpn_mulmod_bnm1_next_size"}
 
@@ -739,7 +740,13 @@ def run_variant(ctx, var, jobs, cov):
             lines += kernel_lines(rng, "quick", have)
             probe_have = set(have)
             lines += [l for l in kext_lines(rng, "quick", probe_have)]
-        lines += other_value_lines(ctx, tree, harness)
+        ov = other_value_lines(ctx, tree, harness)
+        if tag.startswith("cpu-"):
+            # direct calls of internal algorithm entry points are generated for the size domains of the GENERIC kernels; native
+            # helper kernels of a CPU configuration have their own minima (e.g. core2 karaadd: n >= 8), which the public
+            # dispatchers respect through that CPU's thresholds: keep the public entry points and the c14_* crossover lines only
+            ov = [l for l in ov if not INTERNAL_RE.match(l.split(" ", 1)[0])]
+        lines += ov
         for f in sorted(glob.glob(os.path.join(vlib.VERIF, "corpus", ctx.pid, "*.ops"))):       # past failures, on every rebuilt library
             lines += [l.rstrip("\n") for l in open(f) if l.strip() and not l.startswith(("#", "@"))]
         if cfg and "--enable-fat" in cfg:
